@@ -9,10 +9,10 @@ import (
 
 func init() {
 	register(&Property{
-		ID:  "C19",
-		Run: runC19,
+		ID:          "C19",
+		Run:         runC19,
 		Explanation: "Goroutine termination: G0 every `go` statement of product code starts a method of a discipline struct and is classified (10 on the pinned tree; a new kind is UNDECIDED); G2 termination signals (close of a channel, Complete of a breaker) are raised only by unconditional defers of a goroutine entry, and once the first user-visible signal has run only non-blocking deferred calls follow (so the signalling goroutine ends right after signalling); G3 child goroutines are either joined before the first signal (v1 Simple: wg.Add before go, wg.Done deferred first, cancel then wg.Wait before any close) or their only unbounded loop is a receive loop on the inner discipline's output that leaves on the closed-channel edge, that channel being closed by the inner discipline's entry defers (v2 simple); G1 every blocking operation of a child goroutine has a wake-up at termination (closed output, cancelled context, or a release the contract obliges the user to perform); G4 every CFG cycle of every goroutine has an exit edge (no loop that can never be left), v1 cycles additionally exit on stop (C16/S2).",
-		NotDecided: []string{"goroutines started by user callbacks or by third-party code", "that the user honours the contract (reads the output, releases every item)"},
+		NotDecided:  []string{"goroutines started by user callbacks or by third-party code", "that the user honours the contract (reads the output, releases every item)"},
 	})
 }
 
@@ -152,7 +152,7 @@ func c19prog(c *Ctx, p *Prog) {
 			r.Check(len(bad) == 0, "G2b", ek, p.Pos(fn.Pos()), "run order: "+p.describeDefers(order), strings.Join(bad, "; ")+" (run order: "+p.describeDefers(order)+")")
 			// ---- G3 for spawning entries (v1 Simple)
 			spawns := false
-			for _, b := range fn.Blocks {
+			for _, b := range rt.routineBlocks() {
 				for _, in := range b.Instrs {
 					if _, ok := in.(*ssa.Go); ok {
 						spawns = true
